@@ -314,5 +314,5 @@ TRUSTED = common.TRUSTED_STR + common.TRUSTED_TOKEN + [
     'std::env::{var,set_var,remove_var,set_current_dir,current_dir} modelled by a ghost process environment (assumed semantics)',
     'Path::exists / canonicalize are uninterpreted filesystem queries; the identifier regex of remove_env is uninterpreted',
     'HashMap<String,String> insert/remove/iteration contracts stated over string views (shims)',
-    'export, read (field splitting) and the child environment construction (env::vars + per-command envs, inside the exec region) are not under contract',
+    'the export builtin is under contract here and read in U-READ (tools::split_into_fields, the IFS splitting itself, uninterpreted); the child environment construction (env::vars + per-command envs, inside the exec region) is not under contract (bounded: vars:*)',
 ]
